@@ -658,4 +658,322 @@ theorem inv_reach {N : Nat} {s : State} (h : Reach cfgFixed (init N) s) : Inv s 
   | refl => exact inv_init N
   | step _ hs ih => exact inv_step ih (by simp [cfgFixed]) hs
 
+/-! ## distinctness of retired objects: `freed_once` -/
+
+def objsOf (slots : Nat → Slot) (k : Nat) : List Nat := ((slots k).items).map Prod.snd
+
+structure DistinctOn (objs : Nat → List Nat) (freed : List Nat) : Prop where
+  nodupSlot : ∀ i, (objs i).Nodup
+  disj : ∀ i k o, o ∈ objs i → o ∈ objs k → i = k
+  notFreed : ∀ i o, o ∈ objs i → o ∉ freed
+  freedNodup : freed.Nodup
+
+def Distinct (s : State) : Prop := DistinctOn (objsOf s.slots) s.freed
+
+theorem objsOf_upd_same (slots : Nat → Slot) (i : Nat) (sl : Slot)
+    (h : sl.items = (slots i).items) : objsOf (upd slots i sl) = objsOf slots := by
+  funext k
+  by_cases hk : k = i
+  · subst hk; simp [objsOf, upd, h]
+  · simp [objsOf, upd, hk]
+
+theorem distinct_sub {objs objs' : Nat → List Nat} {fr : List Nat} (h : DistinctOn objs fr)
+    (hsub : ∀ k, (objs' k).Sublist (objs k)) : DistinctOn objs' fr := by
+  obtain ⟨h1, h2, h3, h4⟩ := h
+  refine ⟨fun i => (h1 i).sublist (hsub i), ?_, ?_, h4⟩
+  · intro i k o hi hk
+    exact h2 i k o ((hsub i).subset hi) ((hsub k).subset hk)
+  · intro i o hi
+    exact h3 i o ((hsub i).subset hi)
+
+theorem distinct_free {objs objs' : Nat → List Nat} {fr : List Nat} (h : DistinctOn objs fr)
+    (j o : Nat) (hother : ∀ k, k ≠ j → objs' k = objs k) (hperm : (objs j).Perm (o :: objs' j)) :
+    DistinctOn objs' (fr ++ [o]) := by
+  obtain ⟨h1, h2, h3, h4⟩ := h
+  have hnd : (o :: objs' j).Nodup := hperm.nodup_iff.mp (h1 j)
+  have hoj : o ∈ objs j := hperm.mem_iff.mpr List.mem_cons_self
+  have hmem : ∀ k x, x ∈ objs' k → x ∈ objs k := by
+    intro k x hx
+    by_cases hk : k = j
+    · subst hk; exact hperm.mem_iff.mpr (List.mem_cons_of_mem _ hx)
+    · rw [hother k hk] at hx; exact hx
+  refine ⟨?_, ?_, ?_, ?_⟩
+  · intro k
+    by_cases hk : k = j
+    · subst hk; exact (List.nodup_cons.mp hnd).2
+    · rw [hother k hk]; exact h1 k
+  · intro i k x hi hk
+    exact h2 i k x (hmem i x hi) (hmem k x hk)
+  · intro k x hx hfr
+    rcases List.mem_append.mp hfr with hfr | hfr
+    · exact h3 k x (hmem k x hx) hfr
+    · have hxo : x = o := by simpa using hfr
+      subst hxo
+      by_cases hk : k = j
+      · subst hk; exact (List.nodup_cons.mp hnd).1 hx
+      · exact hk (h2 k j x (hmem k x hx) hoj)
+  · rw [List.nodup_append]
+    refine ⟨h4, by simp, ?_⟩
+    intro a ha b hb
+    have hbo : b = o := by simpa using hb
+    subst hbo
+    intro hab
+    subst hab
+    exact h3 j a hoj ha
+
+theorem distinct_retire {objs objs' : Nat → List Nat} {fr : List Nat} (h : DistinctOn objs fr)
+    (i obj : Nat) (hfresh : ∀ k, obj ∉ objs k) (hnf : obj ∉ fr)
+    (hi : objs' i = objs i ++ [obj]) (hother : ∀ k, k ≠ i → objs' k = objs k) :
+    DistinctOn objs' fr := by
+  obtain ⟨h1, h2, h3, h4⟩ := h
+  have hmem : ∀ k x, x ∈ objs' k → x ∈ objs k ∨ (k = i ∧ x = obj) := by
+    intro k x hx
+    by_cases hk : k = i
+    · subst hk
+      rw [hi] at hx
+      rcases List.mem_append.mp hx with hx | hx
+      · exact Or.inl hx
+      · exact Or.inr ⟨rfl, by simpa using hx⟩
+    · rw [hother k hk] at hx; exact Or.inl hx
+  refine ⟨?_, ?_, ?_, h4⟩
+  · intro k
+    by_cases hk : k = i
+    · subst hk
+      rw [hi, List.nodup_append]
+      refine ⟨h1 k, by simp, ?_⟩
+      intro a ha b hb
+      have hbo : b = obj := by simpa using hb
+      subst hbo
+      intro hab
+      subst hab
+      exact hfresh k ha
+    · rw [hother k hk]; exact h1 k
+  · intro a b x ha hb
+    rcases hmem a x ha with ha' | ⟨ha1, ha2⟩ <;> rcases hmem b x hb with hb' | ⟨hb1, hb2⟩
+    · exact h2 a b x ha' hb'
+    · subst hb2; exact absurd ha' (hfresh a)
+    · subst ha2; exact absurd hb' (hfresh b)
+    · rw [ha1, hb1]
+  · intro k x hx
+    rcases hmem k x hx with hx' | ⟨_, hx2⟩
+    · exact h3 k x hx'
+    · subst hx2; exact hnf
+
+theorem distinct_init (N : Nat) : Distinct (init N) := by
+  refine ⟨?_, ?_, ?_, ?_⟩ <;> simp [init, objsOf, Slot.items]
+
+section dsteps
+variable {cfg : Cfg} {s s' : State}
+
+theorem distinct_setSlot (h : Distinct s) (i : Nat) (sl : Slot)
+    (hitems : sl.items = (s.slots i).items) : Distinct (s.setSlot i sl) := by
+  show DistinctOn (objsOf (upd s.slots i sl)) s.freed
+  rw [objsOf_upd_same _ _ _ hitems]
+  exact h
+
+theorem distinct_step {ev : Event} (hI : Inv s) (h : Distinct s)
+    (hs : step? cfg s ev = some s') : Distinct s' := by
+  cases ev with
+  | claim i =>
+    simp only [step?] at hs
+    split at hs
+    · cases hs; exact distinct_setSlot h i _ rfl
+    · cases hs
+  | loadE i =>
+    simp only [step?] at hs
+    split at hs
+    · cases hs; exact distinct_setSlot h i _ rfl
+    · cases hs
+  | publish i =>
+    simp only [step?] at hs
+    split at hs
+    · split at hs
+      · cases hs; exact distinct_setSlot h i _ rfl
+      · cases hs
+    · cases hs
+  | recheck i =>
+    simp only [step?] at hs
+    split at hs
+    · split at hs
+      · cases hs; exact distinct_setSlot h i _ rfl
+      · cases hs
+    · cases hs
+  | leaveBegin i =>
+    simp only [step?] at hs
+    split at hs
+    · cases hs; exact distinct_setSlot h i { s.slots i with begin := 0, pc := .leaving } rfl
+    · cases hs
+  | leaveRunning i =>
+    simp only [step?] at hs
+    split at hs
+    · cases hs; exact distinct_setSlot h i _ rfl
+    · cases hs
+  | unlinkRetire i obj =>
+    simp only [step?] at hs
+    split at hs
+    · rename_i hg
+      obtain ⟨_, _, hfresh⟩ := hg
+      cases hs
+      apply distinct_retire h i obj
+      · intro k hk
+        simp only [objsOf, List.mem_map] at hk
+        obtain ⟨⟨t, o⟩, hk1, hk2⟩ := hk
+        simp only at hk2
+        subst hk2
+        exact hfresh (hI.ghost.ret k t o hk1).1
+      · intro hf
+        exact hfresh (hI.ghost.freedA obj hf).1
+      · simp [objsOf, upd, Slot.items]
+      · intro k hk
+        simp [objsOf, upd, hk]
+    · cases hs
+  | eLoadCur =>
+    simp only [step?] at hs
+    split at hs
+    · cases hs; exact h
+    · cases hs
+  | eCheck j =>
+    simp only [step?] at hs
+    split at hs
+    · split at hs
+      · split at hs <;> (cases hs; exact h)
+      · cases hs
+    · cases hs
+  | eInc =>
+    simp only [step?] at hs
+    split at hs
+    · split at hs
+      · cases hs; exact h
+      · cases hs
+    · cases hs
+  | eMinScan j =>
+    simp only [step?] at hs
+    split at hs
+    · split at hs
+      · split at hs <;> (cases hs; exact h)
+      · cases hs
+    · cases hs
+  | eSetG =>
+    simp only [step?] at hs
+    split at hs
+    · split at hs
+      · cases hs; exact h
+      · cases hs
+    · cases hs
+  | gLoadG j =>
+    simp only [step?] at hs
+    split at hs
+    · split at hs
+      · cases hs; exact h
+      · cases hs
+    · cases hs
+  | gCache j =>
+    simp only [step?] at hs
+    split at hs
+    · split at hs
+      · rename_i hj
+        subst hj
+        split at hs
+        · cases hs; exact h
+        · rename_i t o hc
+          split at hs
+          · cases hs; exact h
+          · cases hs
+            apply distinct_free h j o
+            · intro k hk; simp [objsOf, upd, hk]
+            · simp [objsOf, upd, Slot.items, hc]
+      · cases hs
+    · cases hs
+  | gPop j =>
+    simp only [step?] at hs
+    split at hs
+    · split at hs
+      · rename_i hj
+        subst hj
+        split at hs
+        · cases hs; exact h
+        · rename_i t o rest hq
+          split at hs
+          · cases hs
+            apply distinct_sub h
+            intro k
+            by_cases hk : k = j
+            · subst hk
+              simp only [objsOf, upd, if_true, Slot.items, hq, Option.toList, List.map_append,
+                List.map_cons, List.singleton_append]
+              exact List.sublist_append_right _ _
+            · simp [objsOf, upd, hk]
+          · cases hs
+            apply distinct_free h j o
+            · intro k hk; simp [objsOf, upd, hk]
+            · simp only [objsOf, upd, if_true, Slot.items, hq, List.map_append, List.map_cons]
+              exact List.perm_middle
+      · cases hs
+    · cases hs
+
+end dsteps
+theorem inv_distinct_reach {N : Nat} {s : State} (h : Reach cfgFixed (init N) s) :
+    Inv s ∧ Distinct s := by
+  induction h with
+  | refl => exact ⟨inv_init N, distinct_init N⟩
+  | step _ hs ih => exact ⟨inv_step ih.1 (by simp [cfgFixed]) hs, distinct_step ih.1 ih.2 hs⟩
+
+/-! ## the unrepaired enter under the "load and store are adjacent" hypothesis -/
+
+/-- runs of the UNREPAIRED protocol in which the epoch is never incremented while some worker is
+    between its load of `E` and its store to `begin` -/
+inductive ReachAdj (s0 : State) : State → Prop
+  | refl : ReachAdj s0 s0
+  | step {s s' e} : ReachAdj s0 s → step? cfgD3 s e = some s' →
+      (e = .eInc → ∀ i x, s.pc i ≠ .loaded x) → ReachAdj s0 s'
+
+theorem ite_pc (c : Prop) [Decidable c] (a b : Slot) :
+    (if c then a else b).pc = if c then a.pc else b.pc := apply_ite _ _ _ _
+
+theorem nostall_step {cfg : Cfg} {s s' : State} {ev : Event} (h : NoStall s)
+    (hs : step? cfg s ev = some s') (hadj : ev = .eInc → ∀ i x, s.pc i ≠ .loaded x) :
+    NoStall s' := by
+  intro k e hk
+  simp only [NoStall, State.pc] at h
+  cases ev <;> simp only [step?] at hs <;> (repeat' split at hs) <;> cases hs <;>
+    simp only [State.setSlot, State.pc, upd, ite_pc, reduceCtorEq, forall_const, false_implies] at hk hadj ⊢ <;>
+    grind
+
+
+theorem nostall_init (N : Nat) : NoStall (init N) := by
+  intro i e h
+  simp [init, State.pc] at h
+
+theorem inv_reachAdj {N : Nat} {s : State} (h : ReachAdj (init N) s) : Inv s ∧ NoStall s := by
+  induction h with
+  | refl => exact ⟨inv_init N, nostall_init N⟩
+  | step _ hs hadj ih => exact ⟨inv_step ih.1 (fun _ => ih.2) hs, nostall_step ih.2 hs hadj⟩
+
+/-! ## checking concrete traces -/
+
+/-- some released object still has a session in its witness set -/
+def prematureB (s : State) : Bool := s.freed.any fun o => !(s.wit o).isEmpty
+
+/-- some object has been released, every released object has an empty witness set, and
+    session slot `k` is active -/
+def freedSafelyWhileActiveB (k : Nat) (s : State) : Bool :=
+  !s.freed.isEmpty && s.freed.all (fun o => (s.wit o).isEmpty) && decide (s.pc k = .active)
+
+def checkRun (cfg : Cfg) (s0 : State) (evs : List Event) (p : State → Bool) : Bool :=
+  match run cfg s0 evs with
+  | some s => p s
+  | none => false
+
+theorem exists_of_checkRun {cfg : Cfg} {s0 : State} {evs : List Event} {p : State → Bool}
+    (h : checkRun cfg s0 evs p = true) : ∃ s, Reach cfg s0 s ∧ p s = true := by
+  unfold checkRun at h
+  cases hr : run cfg s0 evs with
+  | none => rw [hr] at h; cases h
+  | some s => rw [hr] at h; exact ⟨s, reach_of_run evs s0 s hr, h⟩
+
+theorem prematureB_spec {s : State} (h : prematureB s = true) :
+    ∃ obj, obj ∈ s.freed ∧ witness s obj ≠ [] := by
+  simp only [prematureB, List.any_eq_true, Bool.not_eq_true', List.isEmpty_eq_false_iff] at h
+  exact h
+
 end Yak.Proto.Epoch
